@@ -310,6 +310,16 @@ var templates = []*template{
 		app.After = func() { n++ }
 		return outcome(app, []string{"t20", "-a", "v"}, func() string { return fmt.Sprintf("a=%v X=%q hooks=%d", *a, *x, n) })
 	}},
+	{name: "T21 option backed by $VQ_U, unset at declaration and exported before Run (the default stays)", env: map[string]string{"VQ_U": ""}, must: `s="dflt"`, setsEnv: true, run: func() string {
+		os.Unsetenv("VQ_U")
+		app := cli.App("t21", "")
+		app.ErrorHandling = flag.ContinueOnError
+		app.Spec = "[-s] [X]"
+		s := app.String(cli.StringOpt{Name: "s", EnvVar: "VQ_U", Value: "dflt"})
+		x := app.String(cli.StringArg{Name: "X", EnvVar: "VQ_U", Value: "xdflt"})
+		os.Setenv("VQ_U", "late") // the environment at declaration time decides, not the one at Run time
+		return outcome(app, []string{"t21"}, func() string { return fmt.Sprintf("s=%q X=%q", *s, *x) })
+	}},
 }
 
 // c20Wrap: one Go type, IsBoolFlag() decided per value (a decorator forwarding the capability of what it wraps)
@@ -494,8 +504,96 @@ func argvReuse(c *Ctx) {
 	}
 }
 
+// defaultReuse: the default slice of a multi-valued declaration belongs to the caller as well. An application
+// given command-line values must leave it as it was, and an application rebuilt with the same slice and run without
+// values must bind exactly the original content.
+func defaultReuse(c *Ctx) {
+	n := 0
+	for kind := 0; kind < 3; kind++ { // strings, ints, floats64
+		for asArg := 0; asArg < 2; asArg++ {
+			for spare := 0; spare < 2; spare++ {
+				for _, given := range [][]string{{"1"}, {"1", "2"}, {"1", "2", "3"}, {}} {
+					n++
+					var ds []string
+					var di []int
+					var df []float64
+					ds = append(make([]string, 0, 2+spare*4), "7", "8")
+					di = append(make([]int, 0, 2+spare*4), 7, 8)
+					df = append(make([]float64, 0, 2+spare*4), 7, 8)
+					read := func() string { return fmt.Sprint(ds[:2], di[:2], df[:2], len(ds), len(di), len(df)) }
+					orig := read()
+					build := func() (*cli.Cli, func() string) {
+						app := cli.App("dr", "")
+						app.ErrorHandling = flag.ContinueOnError
+						var get func() string
+						if asArg == 1 {
+							app.Spec = "[X...]"
+							switch kind {
+							case 0:
+								p := app.StringsArg("X", ds, "")
+								get = func() string { return fmt.Sprint(*p) }
+							case 1:
+								p := app.IntsArg("X", di, "")
+								get = func() string { return fmt.Sprint(*p) }
+							default:
+								p := app.Floats64Arg("X", df, "")
+								get = func() string { return fmt.Sprint(*p) }
+							}
+						} else {
+							app.Spec = "[-x...]"
+							switch kind {
+							case 0:
+								p := app.StringsOpt("x", ds, "")
+								get = func() string { return fmt.Sprint(*p) }
+							case 1:
+								p := app.IntsOpt("x", di, "")
+								get = func() string { return fmt.Sprint(*p) }
+							default:
+								p := app.Floats64Opt("x", df, "")
+								get = func() string { return fmt.Sprint(*p) }
+							}
+						}
+						app.Action = func() {}
+						return app, get
+					}
+					argv := []string{"dr"}
+					for _, g := range given {
+						if asArg == 1 {
+							argv = append(argv, g)
+						} else {
+							argv = append(argv, "-x", g)
+						}
+					}
+					app1, get1 := build()
+					sharedBuf.Reset()
+					runDirect(&sharedBuf, func() error { return app1.Run(argv) })
+					first := get1()
+					app2, get2 := build()
+					sharedBuf.Reset()
+					runDirect(&sharedBuf, func() error { return app2.Run([]string{"dr"}) })
+					c.Count("evaluations", 1)
+					c.Count("nontrivial", 1)
+					c.Count("default_reuse_cases", 1)
+					key := fmt.Sprintf("default slice [7 8] (kind %d of strings/ints/floats64, %d spare elements) behind %s; first application run with %q, then the application rebuilt with the same slice and run without values", kind, spare*4, []string{"option -x", "argument X"}[asArg], argv[1:])
+					if now := read(); now != orig {
+						c.Violation("C20", key, Case{"mode": "default-reuse"}, "the caller's default slice still reads [7 8]: "+orig, now+" (first application bound "+first+")")
+						continue
+					}
+					if got := get2(); got != "[7 8]" {
+						c.Violation("C20", key, Case{"mode": "default-reuse"}, "the rebuilt application binds the default [7 8]", got)
+					}
+				}
+			}
+		}
+	}
+	c.Note("default reuse", fmt.Sprintf("%d cases: strings / ints / floats64 x {option, argument} x default slice with and without spare capacity x 0-3 command-line values: the caller's default slice is unchanged and a rebuilt application binds it again", n))
+}
+
 func runHistories(c *Ctx) {
 	argvReuse(c)
+	if c.Shard == 0 && c.Begin("default-reuse") {
+		defaultReuse(c)
+	}
 	c20Install()
 	solo := soloOutcomes()
 	if c.Shard == 0 && c.Begin("determinism") {
@@ -609,6 +707,8 @@ func replayIndep(c *Ctx, cs Case) {
 				return
 			}
 		}
+	case "default-reuse":
+		defaultReuse(c) // small: the whole enumeration
 	case "argv-reuse":
 		di := cInt(cs, "decl")
 		argvReuseCase(c, argvReuseDecls()[di], di, cStr(cs, "spec"), cStrs(cs, "argv"), cInt(cs, "spare"))
